@@ -457,7 +457,7 @@ func check(prop string, pc propConf, tier string) int {
 		return 2
 	}
 	// merge
-	total := Summary{Prop: prop, Notes: map[string]int{}, Faults: map[string][2]int{}, Leaks: map[string]int{}, Classes: map[string]int{}}
+	total := Summary{Prop: prop, Notes: map[string]int{}, Faults: map[string][2]int{}, Leaks: map[string]int{}, Classes: map[string]int{}, SiteHits: map[string]int{}}
 	hashes := map[uint64]bool{}
 	var viols []RunResult
 	for _, s := range sums {
@@ -483,6 +483,9 @@ func check(prop string, pc propConf, tier string) int {
 		}
 		for k, v := range s.Leaks {
 			total.Leaks[k] += v
+		}
+		for k, v := range s.SiteHits {
+			total.SiteHits[k] += v
 		}
 		for k, v := range s.Classes {
 			total.Classes[k] += v
@@ -1095,6 +1098,7 @@ func writeEvidence(prop string, pc propConf, tier string, seed uint64, t Summary
 			"workers":                   workers,
 			"build_s":                   buildS,
 			"gates":                     gatesGlobal,
+			"sync_sites":                syncSites(b, t.SiteHits),
 		},
 		"assumptions": append([]string{
 			"yield points exist only at pandora's synchronisation operations (channel ops, select, sync.*, atomics, context cancel, time.Sleep, go statements) as inserted by /verif/sim/cmd/instr; interleavings between plain memory accesses are not explored",
@@ -1113,6 +1117,39 @@ func writeEvidence(prop string, pc propConf, tier string, seed uint64, t Summary
 	if err := os.WriteFile(filepath.Join(verifDir, "evidence", prop+".json"), jb, 0o644); err != nil {
 		die(2, "evidence: %v", err)
 	}
+}
+
+// syncSites: which channel operations, selects and go statements of pandora's sources (the sites the instrumenter
+// numbered) were the release point of at least one scheduling decision in this batch, and which never were.
+func syncSites(b *build, hits map[string]int) map[string]any {
+	out := map[string]any{}
+	data, err := os.ReadFile(b.sites)
+	if err != nil {
+		return out
+	}
+	var all map[string]string
+	if json.Unmarshal(data, &all) != nil {
+		return out
+	}
+	var unreached []string
+	total, reached := 0, 0
+	for _, name := range all {
+		if strings.HasPrefix(name, "props/") || strings.HasPrefix(name, "stubs/") || strings.Contains(name, "zz_verif_export.go") {
+			continue // the harness's own (instrumented) sources
+		}
+		total++
+		if hits[name] > 0 {
+			reached++
+		} else {
+			unreached = append(unreached, name)
+		}
+	}
+	sort.Strings(unreached)
+	out["measure"] = "channel operations, selects, range-over-channel loops and go statements in pandora's non-test sources that were a scheduling point of at least one run of this batch"
+	out["in_pandora"] = total
+	out["reached"] = reached
+	out["unreached"] = unreached
+	return out
 }
 
 // selftestPassthrough runs pandora's own test suite against the instrumented sources (the overlay of this build),
